@@ -29,6 +29,7 @@ ASSUMPTIONS = [
     "ruff is replaced by an identity stand-in when the plugin formats its output",
 ]
 FLOORS = {"quick": {"programs": 8, "variants": 40, "comparisons": 3000}, "thorough": {"programs": 100, "variants": 500, "comparisons": 60000}}
+PLUGIN_ANCHORS = ['generate_code', 'NoTyping310TypingCompiler.optional', 'TypingImportTypingCompiler.optional', 'DirectImportTypingCompiler.optional', 'PydanticOneOfFieldCompiler.optional']
 CONTRACTS = []
 CONFIGS = [f"{t}{p}" for t in ("typing.direct", "typing.root", "typing.310") for p in ("", ",pydantic_dataclasses")]
 
@@ -132,6 +133,7 @@ def run_shard(shard) -> Result:
                 b.cleanup()
                 continue
             b.load_descriptors()
+            res.extra["plugin_reach"] = sorted(set(res.extra.get("plugin_reach", [])) | set(b.plugin_reach()))[:400]
             try:
                 b.import_all()
             except BuildError as e:
